@@ -1,7 +1,7 @@
 """C05 CPC: exhaustive predicates over the compression tables (complete prefix codes, bijective permutations, definitional
 tables), wrapping probes in the coupon table, masked row folding in the union, reduce_k dominance."""
 from fractions import Fraction
-from astu import C, ctxt, gt_pair, eq_const, strip, strip_all, walk, walkp, txt, short, is_this_field, field_name, stmts_of, always_throws, functions_by, local_decls
+from astu import C, ctxt, gt_pair, eq_const, reach, reach_txt, ctext, strip, strip_all, walk, walkp, txt, short, is_this_field, field_name, stmts_of, always_throws, functions_by, local_decls
 from vlib.core import ob
 
 
